@@ -108,8 +108,8 @@ def gen_condition(rng, snap, prefix, tz="UTC"):
                 lit = v
         else:
             lit = rng.choice([v, v, v.upper(), v + "x", v[:-1]])
-        if not lit or any(q in lit for q in "'\"`"):
-            lit = "zzz"
+        if any(q in lit for q in "'\"`"):
+            lit = "zzz"        # the empty literal stays: `ext = ''` asks for the entries without an extension
 
         def pred(e, col=col, op=op, lit=lit):
             return model.compare("text", op, model.col_value(e, col, prefix)[1], lit)
